@@ -6,6 +6,7 @@
    statement is kept visible as a definition over them (no axiom, nothing assumed): *)
 From NV Require Import Model.Base Model.Diag Model.Lexer Spec.CConst Spec.Conforming Gen.ErrOrder Gen.MainExit
   Proofs.EmittersProofs Proofs.ConformingProofs Proofs.C01Compose.
+From NV Require Import Model.RuleChecks Gen.RuleChecks Gen.MoreChecks.
 
 Definition C01_statement (unit_ : Type) (wf : unit_ -> Prop) (render_unit : unit_ -> str) (name_ok : unit_ -> str -> Prop)
   (analyse : str -> str -> outcome (list diag)) : Prop :=
@@ -18,25 +19,32 @@ Definition C01_statement (unit_ : Type) (wf : unit_ -> Prop) (render_unit : unit
       Proofs/ConformingCounters.v) - theorems about the generated functions of Gen/RuleChecks.v, Gen/MoreChecks.v, Gen/Counters.v,
       Gen/ScopeOps.v, for ANY remaining token list / statement length / context view under the stated conforming conditions
       (K = token kinds, tied to the text by conforming_text_kinds; P = columns, C09 / C03; V = the view at the statement, given):
-        whole checks (6): CheckTernary (K), CheckLabel (K), CheckLineLen (P), CheckManyInstructions (P),
-                          CheckEmptyLine (V, both on statements and on empty lines), CheckFunctionsCount (trace model);
-        partial (6):      CheckLineIndent (all lines but the `{` line), CheckExpressionStatement (statements without `return`),
+        whole checks (9): CheckTernary (K), CheckLabel (K), CheckLineLen (P), CheckManyInstructions (P),
+                          CheckEmptyLine (V: statements and empty lines), CheckFunctionsCount (trace model),
+                          CheckLineIndent (V: skipped statements, plain lines, `}` lines, `{` lines),
+                          CheckExpressionStatement (K/shape: expr_pos_ok at every position, `return ;` / `return (...) ;` by return_ok),
+                          CheckSpacing (shape: sp_ok at every position of the statement - loop invariant over the statement);
+        partial (5):      CheckControlStatement (translated part = 4 of its 6 codes: cs_pos_ok at every position of the control line,
+                          every `(` closed before the line end - invariant of the scan and of check_nest; not at global scope),
                           CheckUtypeDeclaration (translated part, in headers), CheckBrace (TOO_MANY_LINES at <= 25 lines),
                           CheckVariableDeclaration (TOO_MANY_VARS_FUNC at <= 5), CheckFuncDeclaration (TOO_MANY_ARGS at <= 4);
+      the scope-name / indentation part of V is DERIVED from the scope-trace model (Proofs/ScopeViewProofs.v, ConformingTraced.v):
+      every chain reachable by Model/ScopeTrace.v from the initial state is non-global scopes above one GlobalScope, the
+      indentation is the depth of the chain (Gen/ScopeIndent.v, regenerated from scope.py), so "at global scope" <-> indentation 0;
+      the traced theorems for CheckControlStatement, CheckEmptyLine and CheckLineIndent assume only `view_of q v` for a model run.
+      Still given: the history (which primaries matched) and vdeclarations_allowed;
    2. the code set {INVALID_HEADER} + HEADER_PROT_* + the lexical codes, as before: emitter ties (Gen/Emitters.v), (a) header
       (C13: CheckHeader), (b) guard (C14: CheckPreprocessorProtection), (c) lexer: a conforming TEXT - any number of lines of
       tabs, identifiers (any letter or _ first except l L u U), single spaces, one-character operators, brackets, the listed atoms,
       line ends - is cut into exactly one token per lexeme, of the kind lx_type says, and NO diagnostic is recorded,
       (d) verdict / exit (C04).
-   Checks proved silent as a whole: 8 of 39 (the six above, CheckHeader, CheckPreprocessorProtection).
-   TESTED ONLY by tools/harness/c01.py (31 checks; the six marked * have the partial theorems above):
-     CheckAssignation CheckAssignationIndent CheckBlockStart CheckBrace* CheckComment CheckCommentLineLen CheckControlStatement
-     CheckDeclaration CheckEnumVarDecl CheckExpressionStatement* CheckFuncArgumentsName CheckFuncDeclaration* CheckFuncSpacing
-     CheckGeneralSpacing CheckGlobalNaming CheckIdentifierName CheckInHeader CheckLineCount CheckLineIndent* CheckNestLineIndent
-     CheckNewlineIndent CheckOperatorsSpacing CheckPreprocessorDefine CheckPreprocessorInclude CheckPreprocessorIndent
-     CheckPrototypeIndent CheckSpacing CheckStructNaming CheckUtypeDeclaration* CheckVariableDeclaration* CheckVariableIndent
-   (CheckSpacing and CheckControlStatement are translated - Gen/RuleChecks.v, Gen/MoreChecks.v - but their silence on conforming
-   statements is not proved here: the spacing loop and the parenthesis scan need an invariant over the whole statement.)
+   Checks proved silent as a whole: 11 of 39 (the nine above, CheckHeader, CheckPreprocessorProtection).
+   TESTED ONLY by tools/harness/c01.py (28 checks; the five marked * have the partial theorems above):
+     CheckAssignation CheckAssignationIndent CheckBlockStart CheckBrace* CheckComment CheckCommentLineLen CheckControlStatement*
+     CheckDeclaration CheckEnumVarDecl CheckFuncArgumentsName CheckFuncDeclaration* CheckFuncSpacing CheckGeneralSpacing
+     CheckGlobalNaming CheckIdentifierName CheckInHeader CheckLineCount CheckNestLineIndent CheckNewlineIndent
+     CheckOperatorsSpacing CheckPreprocessorDefine CheckPreprocessorInclude CheckPreprocessorIndent CheckPrototypeIndent
+     CheckStructNaming CheckUtypeDeclaration* CheckVariableDeclaration* CheckVariableIndent
    Also only tested: that the engine cuts a rendered unit into statements with the views the V hypotheses describe; for (c):
    `.` `->` `?` `:` `#`, constants outside the atom list, comments. *)
 Theorem C01_partial_K : C01_partial_K_statement.
@@ -85,6 +93,12 @@ Proof. exact accepted_K1. Qed.
 Print Assumptions C01_accepted_K1.
 
 (* non-vacuity *)
+From NV Require Proofs.ConformingExamples.
+(* the statement-shape hypotheses of the silence theorems hold on the tokens of `<TAB>if (a == b)` / `<TAB><TAB>return (a);` and the
+   generated checks, evaluated on them, report nothing *)
+Example C01_shapes_nonvacuous : check_control_statement ConformingExamples.ex_if 11 ConformingExamples.ex_v = Ok ([], ConformingExamples.ex_v)
+  /\ check_spacing ConformingExamples.ex_if 11 ConformingExamples.ex_v = Ok ([], ConformingExamples.ex_v).
+Proof. exact (conj (proj1 ConformingExamples.checks_agree) (proj1 (proj2 ConformingExamples.checks_agree))). Qed.
 Example C01_example_text : chain ex_text3 = true /\ kinds_ok ex_text3 = true.
 Proof. split; [exact (proj1 ex_text_ok)|exact (proj1 (proj2 ex_text_ok))]. Qed.
 Example C01_example :
